@@ -2,7 +2,7 @@
 # tools/confirm_seed.sh <Cxx> <k>: confirm a sub-agent's change in its scratch worktree
 # (compiles, suite passes, demo fails with / passes without), then store it under /verif/seeded/.
 export GOFLAGS=-mod=mod GOPROXY=off GOSUMDB=off GOTOOLCHAIN=local
-P=$1; K=$2; WT=/tmp/wt/$P; OUT=$WT/_out
+P=$1; K=$2; BASE=${3:-/tmp/wt}; NUM=${4:-$K}; WT=$BASE/$P; OUT=$WT/_out
 cd $WT || exit 2
 git checkout -q -- . ; rm -rf verifdemo
 git apply $OUT/patch$K.diff || { echo "$P/$K: patch does not apply"; exit 1; }
@@ -28,7 +28,7 @@ timeout 300 go test -vet=off -count=1 ./verifdemo > /tmp/seed_demo_without.txt 2
 rm -rf verifdemo; git checkout -q -- .
 echo "$P/$K: suite_ok=$((1-SUITE)) demo_with_patch_exit=$WITH demo_without_patch_exit=$WITHOUT"
 if [ $SUITE -eq 0 ] && [ $WITH -ne 0 ] && [ $WITHOUT -eq 0 ]; then
-  D=/verif/seeded/$P-$K; mkdir -p $D
+  D=/verif/seeded/$P-$NUM; mkdir -p $D
   cp $OUT/patch$K.diff $D/patch.diff; cp $OUT/demo$K\_test.go $D/demo_test.go; cp $OUT/note$K.md $D/note.md
   echo CONFIRMED
 else
